@@ -1,14 +1,26 @@
-//! E7: `rand::thread_rng().gen::<T>()` is nondeterministic choice in the verifier (C20 names the pipe
-//! descriptor numbers as the one allowed source of randomness)
+//! E7: `rand::thread_rng().gen::<T>()` (pipe descriptor numbers, C20's stated exception).  The harness scripts
+//! the draws (`NEXT`); descriptor numbers are opaque keys of the pipe tables, so fixing them loses no behaviour of
+//! the FIFO logic, and it keeps the table lookups concrete for the solver.  Unscripted draws are nondeterministic.
+pub static mut NEXT: [Option<u16>; 4] = [None; 4];
+pub static mut POS: usize = 0;
 pub struct ThreadRng;
 pub fn thread_rng() -> ThreadRng {
     ThreadRng
 }
 pub trait Rng {
-    fn gen<T: kani::Arbitrary>(&mut self) -> T;
+    fn gen<T: kani::Arbitrary + From<u16>>(&mut self) -> T;
 }
 impl Rng for ThreadRng {
-    fn gen<T: kani::Arbitrary>(&mut self) -> T {
+    fn gen<T: kani::Arbitrary + From<u16>>(&mut self) -> T {
+        unsafe {
+            let p = POS;
+            POS += 1;
+            if p < 4 {
+                if let Some(v) = NEXT[p] {
+                    return T::from(v);
+                }
+            }
+        }
         kani::any()
     }
 }
